@@ -43,9 +43,9 @@ type c15Scenario struct {
 	Weight int
 	// WeightUnset: the description gives the scenario no weight (it counts as 1)
 	WeightUnset bool
-	MWT    time.Duration
-	Lines  []string  // the request list as written
-	Steps  []c15Step // expanded reference
+	MWT         time.Duration
+	Lines       []string  // the request list as written
+	Steps       []c15Step // expanded reference
 }
 
 func c15GenScenario(w *simrt.Stream, i int) c15Scenario {
@@ -510,7 +510,7 @@ func runC15(r *R) {
 		}
 	}
 	twinVals := map[int][][2]string{} // scenario -> (X-Ja, X-Jb) of its plain requests
-	globFixed := map[string]string{} // header -> the value of the `variables` source seen first: it is computed once
+	globFixed := map[string]string{}  // header -> the value of the `variables` source seen first: it is computed once
 	seenUUID := map[string]bool{}
 	counts := make([]int, nsc)
 	executed := map[string]int{} // "<scenario>.<step>" -> executed ok
